@@ -379,3 +379,27 @@ int main() {
 ''' % (cap, ''.join(', %d' % k for k in keys), len(keys),
        ('{ int k = %d; if (r.exists(k)) { if (c.get(k) != r.get(k)) { std::printf("get value\\n"); return 1; } } }' % key) if op == 'get'
        else ('c.put(%d, 7); r.put(%d, 7);' % (key, key)))
+
+
+@adapter(r'dsplib::resample\|')
+def resample_length(o):
+    """resample(x, p, q[, h]) returns p'*ceil(len/q') samples and never throws for len >= 1 (C08). The solver's candidate is
+    tried first; when it does not fail (non-linear arithmetic: the candidate comes from the quantifier-free part of the VC)
+    the same claim is tried on the ratios and lengths next to it (p, q <= 8, len <= 24)."""
+    m = o['model'] or {}
+    n, p, q, hn = I(m, 'x._vec.len', 7), I(m, 'p_', 5), I(m, 'q_', 2), I(m, 'h._vec.len', 0)
+    if not (1 <= n <= 1 << 16 and 1 <= p <= 1024 and 1 <= q <= 1024 and 0 <= hn <= 1 << 16):
+        n, p, q, hn = 7, 5, 2, 0
+    return '#include <numeric>\n' + HDR + '''
+static int one(int n, int p, int q, int hn) {
+  arr_real x(n); for (int i = 0; i < n; ++i) x[i] = std::sin(0.3 * i) + 1;
+  const int g = std::gcd(p, q), p1 = p / g, q1 = q / g; const int want = p1 * ((n + q1 - 1) / q1);
+  try { arr_real y = hn > 0 ? resample(x, p, q, ones(hn)) : resample(x, p, q);
+        if (y.size() != want) { std::printf("resample(len=%%d, %%d, %%d): %%d samples, expected %%d\\n", n, p, q, y.size(), want); return 1; } }
+  catch (const std::exception& e) { std::printf("resample(len=%%d, %%d, %%d) throws: %%s\\n", n, p, q, e.what()); return 1; }
+  return 0; }
+int main() {
+  if (one(%d, %d, %d, %d)) return 1;
+  for (int p = 1; p <= 8; ++p) for (int q = 1; q <= 8; ++q) for (int n = 1; n <= 24; ++n) { if (one(n, p, q, 0)) return 1; if (one(n, p, q, 2 * p * q + 1)) return 1; }
+  return 0; }
+''' % (n, p, q, hn)
